@@ -34,6 +34,7 @@ Definition batch_writes (s : state) (o : op) : list bwrite :=
   | OFIncB fk => field_write (st_db s) fk inc_val
   | OFDecB fk => field_write (st_db s) fk dec_val
   | OSPutB fk v => [WPut fk v]
+  | OBBulk i1 i2 count nkeys stride offset => bulk_writes i1 i2 count nkeys stride offset
   | _ => []
   end.
 
@@ -139,6 +140,7 @@ Definition op_ok (o : op) : Prop :=
   match o with
   | OPut i k _ | ODelete i k | OBPut i k _ | OBDelete i k => isbytes (ikey i k)
   | OFPut fk _ | OFInc fk | OFDec fk | OFPutB fk _ | OFIncB fk | OFDecB fk | OSPut fk _ | OSPutB fk _ => isbytes fk
+  | OBBulk i1 i2 _ nkeys _ _ => i1 < 256 /\ i2 < 256 /\ 0 < nkeys <= 65536
   | _ => True
   end.
 
@@ -146,6 +148,21 @@ Definition wf_state (s : state) : Prop := wf_db (st_db s) /\ wf_writes (st_batch
 
 Lemma field_write_wf db fk f : isbytes fk -> wf_writes (field_write db fk f).
 Proof. intros H. unfold field_write, wf_writes. destruct (field_get db fk); [apply Forall_cons; [exact H | apply Forall_nil] | apply Forall_nil]. Qed.
+
+Lemma bulk_writes_wf i1 i2 count nkeys stride offset : i1 < 256 -> i2 < 256 -> 0 < nkeys <= 65536 ->
+  wf_writes (bulk_writes i1 i2 count nkeys stride offset).
+Proof.
+  intros H1 H2 Hn. unfold bulk_writes, wf_writes. apply Forall_rev.
+  apply (N.iter_invariant count _ _ (fun st : N * list bwrite => Forall (fun w => isbytes (wkey w)) (snd st))); [|constructor].
+  intros [n acc] Hacc. cbn [bulk_step fst snd]. constructor; [|exact Hacc].
+  unfold bulk_write. set (j := (n * stride + offset) mod nkeys).
+  assert (Hj : j < nkeys) by (apply N.mod_lt; lia).
+  assert (Hk : isbytes (ikey (if N.even n then i1 else i2) [j / 256; j mod 256])).
+  { unfold ikey. constructor; [destruct (N.even n); assumption|]. constructor.
+    - unfold isbyte. apply N.div_lt_upper_bound; [discriminate | lia].
+    - constructor; [|constructor]. unfold isbyte. apply N.mod_lt. discriminate. }
+  destruct (n mod 3 =? 2); exact Hk.
+Qed.
 
 Lemma db_writes_wf s o : wf_state s -> op_ok o -> wf_writes (db_writes s o).
 Proof.
@@ -155,6 +172,7 @@ Qed.
 Lemma batch_writes_wf s o : op_ok o -> wf_writes (batch_writes s o).
 Proof.
   intros Ho. destruct o; cbn [batch_writes op_ok] in *; try (now apply field_write_wf);
+    try (destruct Ho as (H1 & H2 & H3); now apply bulk_writes_wf);
     unfold wf_writes; first [ apply Forall_nil | (apply Forall_cons; [exact Ho | apply Forall_nil]) ].
 Qed.
 
